@@ -66,6 +66,8 @@ def run_vc_unit(vc_name, wd, variables=None, label=None, threads=4, rlimit=None,
         elif f["kind"] == "fn":
             r.functions.append("%s::%s [%s]" % (u.crate, f["path"], u.features or "no features"))
     r.dropped = ["%s x%d" % (RULES_TEXT.get(k, k), v) for k, v in sorted(built["stats"].items())]
+    for m in re.finditer(r'//\s*ASSUME:\s*(.*)', built["src"]):
+        r.assumptions.append("ASSUMED CONTRACT in unit %s: %s" % (label, m.group(1).strip()))
     ass = scan_assumptions(built["src"], label)
     for kw, n in ass:
         if kw in ('assume(', 'admit('):
